@@ -252,3 +252,16 @@ func metricVal(mm *Metrics, name, kvs string) float64 {
 	}
 	return s.Samples[kvs]
 }
+
+// logEvent appends a driver-side event (cancel, return, ...) to the connection's event log.
+func (c *vConn) logEvent(kind string, seq int) {
+	c.mu.Lock()
+	defer c.mu.Unlock()
+	c.ev(kind, seq)
+}
+
+func (c *vConn) eventLog() []vEvent {
+	c.mu.Lock()
+	defer c.mu.Unlock()
+	return append([]vEvent(nil), c.events...)
+}
